@@ -46,6 +46,7 @@ struct ReqCtx {
 	uint32_t id      = 0;       // wire id once a peer has read it (0 = not seen yet)
 	uint32_t prev_id = 0;       // id of the previous (superseded/cancelled/answered) request
 	uint32_t reply   = 0;       // tag of the stashed reply when ANSWERED
+	uint32_t pred_id = 0;       // id this request is expected to carry (ids are issued sequentially), 0 = unknown
 	AioBox   sndbox[2], rcv; // two send aios: a new request may be submitted while the old send is still queued
 	int      cur         = 0;
 	bool     snd_pending = false, rcv_pending = false;
@@ -63,6 +64,27 @@ struct ReqWorld {
 	uint32_t     maxid      = 0;
 	std::map<uint32_t, int> wire; // id -> ctx slot, for every request frame a peer has read
 	int          delivered = 0, discarded = 0;
+	// jam: the wire peer stops reading, so nng's pipe stays busy with a half-written request and later requests
+	// wait in the REQ send queue although a connection exists
+	bool         jammed   = false;
+	bool         pred_ok  = true;
+	uint32_t     last_alloc = 0; // highest request id known to have been issued
+	// every request submission draws the next id of one sequence: once any frame has been read, the id of every
+	// submission (also of those cancelled before they reached the wire) follows from its position
+	std::map<uint32_t, long> subm; // tag -> submission index
+	long                     nsubm = 0;
+	bool                     base_known = false;
+	long                     base_idx = 0;
+	uint32_t                 base_id  = 0;
+	uint32_t predict(long idx) const
+	{
+		if (!base_known || !pred_ok)
+			return 0;
+		long long v = (long long) base_id + (idx - base_idx);
+		if (v <= 0x80000000ll || v > 0xfffffff0ll)
+			return 0;
+		return (uint32_t) v;
+	}
 };
 
 static int
@@ -101,8 +123,24 @@ req_submit_recv(ReqWorld &W, int k, nng_duration tmo)
 }
 
 // peers read whatever nng wrote; learn the ids of the requests on the wire
+static void req_peers_read1(ReqWorld &W, bool *progress);
+// read until nng has nothing more to write: a large request on a small kernel buffer needs several rounds
 static void
 req_peers_read(ReqWorld &W)
+{
+	if (W.jammed)
+		return;
+	for (int round = 0; round < 200; round++) {
+		bool progress = false;
+		req_peers_read1(W, &progress);
+		if (!progress)
+			break;
+		vs_settle();
+	}
+}
+
+static void
+req_peers_read1(ReqWorld &W, bool *progress)
 {
 	for (int p = 0; p < 2; p++) {
 		if (!W.peer_up[p])
@@ -110,13 +148,29 @@ req_peers_read(ReqWorld &W)
 		for (;;) {
 			uint8_t *pl;
 			size_t   pn;
-			int      g = rp_recv_msg(&W.peer[p], &pl, &pn);
+			long     rd0 = W.peer[p].rd_total;
+			int      g   = rp_recv_msg(&W.peer[p], &pl, &pn);
+			if (W.peer[p].rd_total != rd0)
+				*progress = true;
 			VR_CHECK(g >= 0, "C04:wire-garbage", "REQ wrote a malformed frame");
 			if (g == 0)
 				break;
-			VR_CHECK(pn == 8, "C04:wire-request-shape", "request frame of %zu bytes, expected id + 4-byte body", pn);
+			VR_CHECK(pn >= 8, "C04:wire-request-shape", "request frame of %zu bytes, expected id + body", pn);
 			uint32_t id = get32(pl), tag = get32(pl + 4);
+			for (size_t q = 8; q < pn; q++)
+				VR_CHECK(pl[q] == (uint8_t) (tag * 31 + (q - 8) * 7), "C04:wire-body", "request body padding corrupted at offset %zu", q - 8);
 			free(pl);
+			if (id > W.last_alloc)
+				W.last_alloc = id;
+			if (W.subm.count(tag)) {
+				if (W.base_known && W.predict(W.subm[tag]) != 0 && W.predict(W.subm[tag]) != id) {
+					W.pred_ok = false; // the sequence assumption does not hold (wrapped id space): no more predictions
+					vr_tag("id_prediction_off");
+				}
+				W.base_known = true;
+				W.base_idx   = W.subm[tag];
+				W.base_id    = id;
+			}
 			VR_CHECK(id & 0x80000000u, "C04:request-id-bit", "request id %x lacks the high bit", id);
 			int k = (int) (tag >> 24);
 			VR_CHECK(k >= 0 && k < 4, "C04:wire-body", "request body corrupted (%x)", tag);
@@ -127,7 +181,10 @@ req_peers_read(ReqWorld &W)
 			W.wire[id] = k;
 			W.maxid    = std::max(W.maxid, id);
 			if (C.open && C.tag == tag && (C.st == QUEUED || C.st == OUTSTANDING)) {
-				if (C.id != 0)
+				if (C.id != 0 && C.id == C.pred_id && C.id != id) {
+					W.pred_ok = false; // the harness mispredicted an id: predictions are not used any more
+					vr_tag("id_prediction_off");
+				} else if (C.id != 0)
 					VR_CHECK(C.id == id, "C04:id-changed", "retransmission of request %x carries id %x, first transmission %x", tag, id, C.id);
 				C.id = id;
 				C.st = OUTSTANDING;
@@ -142,7 +199,7 @@ req_peers_read(ReqWorld &W)
 }
 
 static void
-req_after_settle(ReqWorld &W)
+req_harvest_sends(ReqWorld &W)
 {
 	// completion of pending sends: with a peer attached every queued request is written at quiescence
 	for (int k = 0; k < 4; k++) {
@@ -160,6 +217,22 @@ req_after_settle(ReqWorld &W)
 			}
 		}
 	}
+}
+
+static void
+req_after_settle(ReqWorld &W)
+{
+	req_harvest_sends(W);
+	if (W.jammed)
+		for (int k = 0; k < 4; k++) {
+			ReqCtx &C = W.c[k];
+			if (C.open && C.st == QUEUED && !C.snd_pending && C.pred_id != 0 && C.id == 0) {
+				C.id = C.pred_id;
+				C.st = OUTSTANDING;
+			}
+		}
+	req_peers_read(W);
+	req_harvest_sends(W); // (draining a large request lets queued sends complete)
 	req_peers_read(W);
 	if (npeers(W) > 0)
 		for (int k = 0; k < 4; k++)
@@ -208,10 +281,34 @@ exec_req(const vcase *vc)
 		std::string n = o->name;
 		vr_at(i, o->name);
 		int k = (int) vop_arg(o, 0, 0), a1 = (int) vop_arg(o, 1, 0), a2 = (int) vop_arg(o, 2, 0);
+		if (n == "jam") {
+			// needs exactly one connection, nothing queued, and a known id sequence
+			bool busy = false;
+			for (int j = 0; j < 4; j++)
+				if (W.c[j].open && (W.c[j].snd_pending || W.c[j].st == QUEUED))
+					busy = true;
+			if (W.jammed || npeers(W) != 1 || busy || W.predict(W.nsubm + 4) == 0)
+				continue;
+			req_peers_read(W);
+			W.jammed = true;
+			vr_tag("jammed");
+			continue;
+		}
+		if (n == "unjam") {
+			if (!W.jammed)
+				continue;
+			W.jammed = false;
+			req_after_settle(W);
+			continue;
+		}
+		if (W.jammed && (n == "attach" || n == "detach"))
+			continue;
 		if (n == "attach") {
 			if (k < 0 || k > 1 || W.peer_up[k])
 				continue;
+			rp_socket_sndbuf = a1 ? 1 : 0;
 			attach(k);
+			rp_socket_sndbuf = 0;
 			req_after_settle(W);
 			continue;
 		}
@@ -248,6 +345,11 @@ exec_req(const vcase *vc)
 			case 7: // a neighbour of a known id: ids are issued sequentially, so this hits ids of requests that were
 				// cancelled or superseded before they ever reached the wire
 				id = 0x80000000u | (((C.id ? C.id : W.maxid) + (uint32_t) (W.rseq % 7) - 3) & 0x7fffffffu);
+				break;
+			case 8: // the id the context's current request will carry / carries, known from the sequence although no peer has read it
+				id = W.pred_ok ? C.pred_id : 0;
+				if (id != 0 && C.open && C.st == QUEUED && C.snd_pending)
+					vr_tag("reply_to_request_still_queued");
 				break;
 			default: continue;
 			}
@@ -339,8 +441,10 @@ exec_req(const vcase *vc)
 			if (had_snd)
 				C.cur ^= 1; // keep the queued send's aio alive, submit the new request on the other one
 			uint32_t tag = ((uint32_t) k << 24) | ++W.seq;
-			nng_msg *m   = h_msg(tag, 0);
+			nng_msg *m   = h_msg(tag, W.jammed ? 20000 : 0);
 			req_submit_send(W, k, m);
+			W.subm[tag]   = W.nsubm++;
+			uint32_t pred = W.predict(W.subm[tag]);
 			vs_settle();
 			if (had_snd) {
 				VR_CHECK(oldb->done == 1 && nng_aio_result(oldb->aio) == NNG_ECANCELED, "C04:superseded-send-result",
@@ -355,8 +459,9 @@ exec_req(const vcase *vc)
 				int rv = nng_aio_result(C.snd.aio);
 				VR_CHECK(rv == 0, "C04:send-result", "request send on context %d -> %d", k, rv);
 			} else
-				VR_CHECK(npeers(W) == 0, "C04:send-stuck", "request send on context %d did not complete although a peer is connected", k);
-			C.tag = tag;
+				VR_CHECK(npeers(W) == 0 || W.jammed, "C04:send-stuck", "request send on context %d did not complete although a peer is connected", k);
+			C.tag     = tag;
+			C.pred_id = pred;
 			C.id  = 0;
 			C.st  = QUEUED;
 			if (had_rcv) {
@@ -457,6 +562,10 @@ exec_req(const vcase *vc)
 			}
 		}
 	}
+	if (W.jammed) {
+		W.jammed = false;
+		req_after_settle(W);
+	}
 	if (W.delivered && W.discarded)
 		vr_tag("delivered_and_discarded");
 	int outstanding = 0;
@@ -539,16 +648,21 @@ genReqOp()
 	return gen::exec([]() {
 		std::ostringstream o;
 		int k = *gen::weightedElement<int>({{4, 0}, {3, 1}, {2, 2}, {1, 3}});
-		int t = *gen::weightedElement<int>({{10, 0}, {12, 1}, {6, 2}, {4, 3}, {3, 4}, {3, 5}, {1, 6}, {3, 7}});
+		int t = *gen::weightedElement<int>({{10, 0}, {12, 1}, {6, 2}, {4, 3}, {3, 4}, {3, 5}, {1, 6}, {3, 7}, {2, 8}, {1, 9}});
 		switch (t) {
 		case 0: o << "send " << k; break;
-		case 1: o << "reply " << *pbt::range<int>(0, 1) << " " << *gen::weightedElement<int>({{8, 0}, {4, 1}, {2, 2}, {2, 3}, {2, 4}, {1, 5}, {3, 6}, {5, 7}}) << " " << k; break;
+		case 1: o << "reply " << *pbt::range<int>(0, 1) << " " << *gen::weightedElement<int>({{8, 0}, {4, 1}, {2, 2}, {2, 3}, {2, 4}, {1, 5}, {3, 6}, {5, 7}, {5, 8}}) << " " << k; break;
 		case 2: o << "recv " << k; break;
 		case 3: o << "arecv " << k; break;
 		case 4: o << "cancel " << k; break;
-		case 5: o << "attach " << *pbt::range<int>(0, 1); break;
+		case 5: o << "attach " << *pbt::range<int>(0, 1) << " " << *pbt::range<int>(0, 1); break;
 		case 6: o << "detach " << *pbt::range<int>(0, 1); break;
 		case 7: o << "ctxopen " << *pbt::range<int>(1, 3); break;
+		case 8: // the peer stops reading, two or three large requests pile up, a reply names the id of one that is still queued
+			o << "jam\nsend " << k << "\nsend " << (k + 1) % 4 << "\nsend " << (k + 2) % 4 << "\narecv " << (k + 2) % 4 << "\nreply 0 8 " << (k + *pbt::range<int>(1, 2)) % 4
+			  << "\nreply 1 8 " << (k + 2) % 4;
+			break;
+		case 9: o << "unjam"; break;
 		}
 		return o.str();
 	});
@@ -565,7 +679,7 @@ genRepOp()
 		switch (t) {
 		case 0: o << "req " << p << " " << *gen::weightedElement<int>({{6, 0}, {3, 1}, {2, 2}, {1, 6}, {1, 7}, {1, 8}, {1, 14}, {1, 15}}); break;
 		case 1: o << "recv " << k; break;
-		case 2: o << "send " << k; break;
+		case 2: o << "send " << k << " " << *pbt::welem<int>({{4, 0}, {1, 1}, {1, 2}}) << " " << *pbt::range<int>(0, 1); break;
 		case 3: o << "attach " << p; break;
 		case 4: o << "detach " << p; break;
 		case 5: o << "ctxopen " << *pbt::range<int>(1, 2); break;
@@ -585,7 +699,7 @@ gen_c04()
 	t << "cfg " << *pbt::range<int>(1, 1000000) << " " << mode << " " << *gen::element(10, 30, 60) << " " << *pbt::range<int>(1, 3) << " 600 0\n";
 	t << "world " << w << "\n";
 	if (*pbt::welem<int>({{1, 0}, {5, 1}}))
-		t << "attach 0\n";
+		t << "attach 0 " << *pbt::range<int>(0, 1) << "\n";
 	if (w == 0 && *pbt::welem<int>({{1, 0}, {2, 1}}))
 		t << "ctxopen 1\nctxopen 2\n";
 	auto ops = *gen::container<std::vector<std::string>>(w == 0 ? genReqOp() : genRepOp());
